@@ -845,7 +845,7 @@ func checkC16(p *Prog, r *Report) {
 	ruleAnchorUniform(p, r)
 	ruleMapIterators(p, r)
 	ruleNoNondetSources(p, r)
-	ruleNoClockInComputation(p, r)
+	ruleNoClockInComputation(p, r, "R16.6")
 	r.Trusted = []string{"go/ssa construction", "sort/slices/maps.Keys+Sorted are deterministic functions of their input",
 		"distinct entries of one map do not alias each other's memory (stated assumption for ELEMSTORE)",
 		"standard-library functions not listed in libWrites (effects.go) do not write through their arguments"}
@@ -937,8 +937,8 @@ func ruleNoNondetSources(p *Prog, r *Report) {
 
 // ruleNoClockInComputation: R16.6 — what is computed from the two configurations does not
 // depend on how long the computation takes.
-func ruleNoClockInComputation(p *Prog, r *Report) {
-	r.rule("R16.6", "Parsing, merging and planning do not consult the clock or the scheduler: no function reachable (VTA call graph) from a method ParseConfig, MergeSpoc, GetChanges or ShowChanges of the module calls time.Now / Since / Until / After / AfterFunc / NewTimer / NewTicker / Tick / Sleep, context.WithTimeout / WithDeadline (and their Cause variants), os.Getpid / Getppid / Hostname, runtime.Gosched / NumGoroutine / NumCPU / GOMAXPROCS or anything of math/rand. A result that depends on how long a diff took differs between two runs on the same input (a deadline that falls back to another plan).")
+func ruleNoClockInComputation(p *Prog, r *Report, rule string) {
+	r.rule(rule, "Parsing, merging and planning do not consult the clock or the scheduler: no function reachable (VTA call graph) from a method ParseConfig, MergeSpoc, GetChanges or ShowChanges of the module calls time.Now / Since / Until / After / AfterFunc / NewTimer / NewTicker / Tick / Sleep, context.WithTimeout / WithDeadline (and their Cause variants), os.Getpid / Getppid / Hostname, runtime.Gosched / NumGoroutine / NumCPU / GOMAXPROCS or anything of math/rand. A result that depends on how long a diff took differs between two runs on the same input (a deadline that falls back to another plan).")
 	forbidden := func(f *ssa.Function) bool {
 		if f.Pkg == nil {
 			return false
@@ -993,10 +993,10 @@ func ruleNoClockInComputation(p *Prog, r *Report) {
 		}
 		walk(root)
 		sort.Strings(bad)
-		r.add("R16.6", "no-clock|"+shortName(root), p.pos(root.Pos()), fmt.Sprintf("%d functions reachable from %s consult neither clock nor scheduler", len(seen), shortName(root)), len(bad) == 0,
+		r.add(rule, "no-clock|"+shortName(root), p.pos(root.Pos()), fmt.Sprintf("%d functions reachable from %s consult neither clock nor scheduler", len(seen), shortName(root)), len(bad) == 0,
 			"the result of the computation depends on time or scheduling: "+strings.Join(bad, "; "))
 	}
-	r.floor("R16.6", "ParseConfig / MergeSpoc / GetChanges / ShowChanges methods", nRoots, 15)
+	r.floor(rule, "ParseConfig / MergeSpoc / GetChanges / ShowChanges methods", nRoots, 15)
 }
 
 // ruleMapIterators: R16.5 — map iterators (maps.Keys/Values/All) are only fed
